@@ -227,4 +227,19 @@ CHECKS = {
             dict(test="TestC13Random", unit="random", kind="rapid", checks=(1600, 40000), shards=(8, 16)),
         ],
     ),
+    "C12": dict(
+        level="exploration",
+        technique="property-based testing (rapid) of concurrent sessions, each judged by its own sequential reference model; the same unit under the Go race detector",
+        rule="2..16 (thorough: up to 64) concurrent clients against one in-process server under GOMAXPROCS 1/2/4/16; each client's history (3..25 requests, 1/4 of the clients reconnect "
+             "mid-way) mixes reads of up to 400 000 bytes (several pool buffers) on shared files, the SAME generated image (***DVD***/GAME) and an encrypted image, CD sector reads, "
+             "listings of static directories, CLOSEFILE, and uploads/mkdir/delete inside a private subtree; every client's reply stream must equal what it would get alone "
+             "(its own reference model over the shared static data and its private subtree). unit race: the same cases in a -race build of the real server code; any race report "
+             "fails the run. non-trivial = >= 2 clients with transfers larger than one 64 KiB buffer on the same object; distinct by (clients, GOMAXPROCS, total requests, objects)",
+        assumptions=[INPROC, "interleavings are sampled (many runs, varied GOMAXPROCS, large transfers), not enumerated; the race detector reports only races on executed paths",
+                     "schedule-dependent failures cannot be shrunk or replayed deterministically: the failing client's history is printed"],
+        units=[
+            dict(test="TestC12Concurrent", unit="concurrent", kind="rapid", checks=(400, 12000), shards=(8, 16)),
+            dict(test="TestC12Race", unit="race", kind="rapid", checks=(160, 3200), shards=(8, 16), race=True),
+        ],
+    ),
 }
